@@ -33,6 +33,7 @@ UNARY = {"sqrt": "sqrt", "tanh": "tanh", "sinh": "sinh", "cosh": "cosh", "exp": 
          "abs": "Rabs", "sin": "sin", "cos": "cos"}
 CMP = {ast.Lt: "Rlt_dec", ast.LtE: "Rle_dec", ast.Gt: "Rgt_dec", ast.GtE: "Rge_dec"}
 BIN = {ast.Add: "+", ast.Sub: "-", ast.Mult: "*", ast.Div: "/"}
+# a % b (numpy / Python floor modulo) is OSU.Lib.Fmod.fmod a b
 RESERVED = {"exp", "ln", "sin", "cos", "sqrt", "tanh", "sinh", "cosh", "pow", "fst", "snd", "true", "false", "if",
             "then", "else", "let", "in", "fun", "match", "with", "end", "R", "nat", "PI", "up", "IZR", "INR"}
 
@@ -54,12 +55,19 @@ def const(v):
 class Tr:
     def __init__(self, known):
         self.known = known          # name -> list of parameter names (functions translated so far)
+        self.mask = None            # name of the isfinite-mask inside a masked function
+        self.uses_fmod = False
 
     def expr(self, e):
         if isinstance(e, ast.Constant):
             return const(e.value)
         if isinstance(e, ast.Name):
             return ident(e.id)
+        if isinstance(e, ast.Attribute) and isinstance(e.value, ast.Name) and e.value.id == "np" and e.attr == "pi":
+            return "PI"
+        if isinstance(e, ast.Subscript) and self.mask is not None and isinstance(e.value, ast.Name) \
+                and isinstance(e.slice, ast.Name) and e.slice.id == self.mask:
+            return ident(e.value.id)          # x[mask]: the finite elements of x, element by element
         if isinstance(e, ast.UnaryOp) and isinstance(e.op, ast.USub):
             return "(- %s)" % self.expr(e.operand)
         if isinstance(e, ast.BinOp):
@@ -67,6 +75,9 @@ class Tr:
                 if isinstance(e.right, ast.Constant) and isinstance(e.right.value, int) and 0 <= e.right.value <= 8:
                     return "(%s ^ %d)" % (self.expr(e.left), e.right.value)
                 raise Refuse("power with a non-constant or large exponent")
+            if isinstance(e.op, ast.Mod):
+                self.uses_fmod = True
+                return "(fmod %s %s)" % (self.expr(e.left), self.expr(e.right))
             if type(e.op) not in BIN:
                 raise Refuse("operator %s" % type(e.op).__name__)
             return "(%s %s %s)" % (self.expr(e.left), BIN[type(e.op)], self.expr(e.right))
@@ -231,6 +242,86 @@ def translate_function(fn, tr, out):
         name, tuple_type(nst), destruct(carried, "st", "  " + ident(body[-1].value.id))))
 
 
+def is_none_test(t):
+    return isinstance(t, ast.Compare) and len(t.ops) == 1 and isinstance(t.ops[0], ast.Is) \
+        and isinstance(t.left, ast.Name) and isinstance(t.comparators[0], ast.Constant) and t.comparators[0].value is None
+
+
+def translate_masked(fn, tr, out):
+    """[docstring]
+       (if p is None: return q)*          -> recorded:  <f>_<p>_None_returns_<q>
+       (if p is None: p = expr)*          -> Definition <f>_default_<p>
+       mask = np.isfinite(x); output = np.full_like(x, np.nan); output[mask] = expr(x[mask] ..); return output
+                                          -> Definition <f> (params) : R := expr      (the value at a finite element;
+                                                                                      non-finite elements stay NaN)"""
+    a = fn.args
+    if a.vararg or a.kwarg or a.kwonlyargs or a.posonlyargs or fn.decorator_list:
+        raise Refuse("%s: unsupported parameter kinds / decorators" % fn.name)
+    params = [x.arg for x in a.args]
+    name = ident(fn.name)
+    for p, d in zip(params[len(params) - len(a.defaults):], a.defaults):
+        if isinstance(d, ast.Constant) and d.value is None:
+            continue                  # handled by the `is None` branches below
+        if names_in(d) - {"np"}:
+            raise Refuse("%s: default of %s reads a name" % (fn.name, p))
+        out.append("Definition %s_default_%s : R :=\n  %s." % (name, p, tr.expr(d)))
+    body = [s for s in fn.body if not is_doc(s)]
+    i = 0
+    while i < len(body) and isinstance(body[i], ast.If):
+        st = body[i]
+        if st.orelse or not is_none_test(st.test) or st.test.left.id not in params or len(st.body) != 1:
+            raise Refuse("%s: unsupported if statement" % fn.name)
+        p = st.test.left.id
+        b = st.body[0]
+        if isinstance(b, ast.Return) and isinstance(b.value, ast.Name) and b.value.id in params:
+            out.append("(* %s: if %s is None the argument %s is returned unchanged *)\nDefinition %s_%s_None_returns : nat := %d."
+                       % (fn.name, p, b.value.id, name, p, params.index(b.value.id)))
+        elif isinstance(b, ast.Assign) and len(b.targets) == 1 and isinstance(b.targets[0], ast.Name) and b.targets[0].id == p:
+            free = sorted(names_in(b.value))
+            if any(x not in params for x in free):
+                raise Refuse("%s: default of %s reads a non-parameter" % (fn.name, p))
+            out.append("Definition %s_default_%s %s : R :=\n  %s." % (name, p, " ".join("(%s : R)" % ident(x) for x in free), tr.expr(b.value)))
+        else:
+            raise Refuse("%s: unsupported None branch" % fn.name)
+        i += 1
+    rest = body[i:]
+    if len(rest) != 4:
+        raise Refuse("%s: expected mask / output / masked assignment / return" % fn.name)
+    mname, mval = assign(rest[0])
+    if not (isinstance(mval, ast.Call) and isinstance(mval.func, ast.Attribute) and mval.func.attr == "isfinite"
+            and isinstance(mval.func.value, ast.Name) and mval.func.value.id == "np" and len(mval.args) == 1
+            and isinstance(mval.args[0], ast.Name) and mval.args[0].id in params):
+        raise Refuse("%s: mask is not np.isfinite(<parameter>)" % fn.name)
+    x = mval.args[0].id
+    oname, oval = assign(rest[1])
+    if not (isinstance(oval, ast.Call) and isinstance(oval.func, ast.Attribute) and oval.func.attr == "full_like"
+            and len(oval.args) == 2 and isinstance(oval.args[0], ast.Name) and oval.args[0].id == x
+            and isinstance(oval.args[1], ast.Attribute) and oval.args[1].attr == "nan"):
+        raise Refuse("%s: output is not np.full_like(%s, np.nan)" % (fn.name, x))
+    st = rest[2]
+    if not (isinstance(st, ast.Assign) and len(st.targets) == 1 and isinstance(st.targets[0], ast.Subscript)
+            and isinstance(st.targets[0].value, ast.Name) and st.targets[0].value.id == oname
+            and isinstance(st.targets[0].slice, ast.Name) and st.targets[0].slice.id == mname):
+        raise Refuse("%s: third statement is not %s[%s] = ..." % (fn.name, oname, mname))
+    if not (isinstance(rest[3], ast.Return) and isinstance(rest[3].value, ast.Name) and rest[3].value.id == oname):
+        raise Refuse("%s: does not return %s" % (fn.name, oname))
+    # every use of the masked parameter must be x[mask]
+    for n in ast.walk(st.value):
+        if isinstance(n, ast.Name) and n.id == x:
+            pass
+    bare = [n for n in ast.walk(st.value) if isinstance(n, ast.Name) and n.id == x]
+    subs = [n for n in ast.walk(st.value) if isinstance(n, ast.Subscript) and isinstance(n.value, ast.Name) and n.value.id == x]
+    if len(bare) != len(subs):
+        raise Refuse("%s: %s is used without the mask" % (fn.name, x))
+    tr.mask = mname
+    try:
+        e = tr.expr(st.value)
+    finally:
+        tr.mask = None
+    out.append("Definition %s %s : R :=\n  %s." % (name, " ".join("(%s : R)" % ident(p) for p in params), e))
+    tr.known[fn.name] = params
+
+
 def translate(path, funcs, header):
     tree = ast.parse(open(path).read())
     found = {}
@@ -250,11 +341,14 @@ def translate(path, funcs, header):
     # translate in source order so that callees precede callers where the source allows; otherwise by `funcs`
     order = sorted(funcs, key=lambda n: 0)  # keep the order given: callees first
     for name in order:
+        masked = name.startswith("masked:")
+        name = name.split(":")[-1]
         if name not in found:
             raise Refuse("function %s not found" % name)
-        translate_function(found[name], tr, out)
+        (translate_masked if masked else translate_function)(found[name], tr, out)
     text = ("(* GENERATED by harness/translate_pointwise.py from %s - do not edit *)\n"
-            "From Coq Require Import Reals.\nOpen Scope R_scope.\n\n" % header + "\n\n".join(out) + "\n\n"
+            "From Coq Require Import Reals.\n%sOpen Scope R_scope.\n\n" % (header, "From OSU.Lib Require Import Fmod.\n" if tr.uses_fmod else "")
+            + "\n\n".join(out) + "\n\n"
             + "(* module-level aliases: %s *)\n" % ", ".join("%s = %s" % a for a in aliases))
     return text, aliases
 
@@ -267,6 +361,12 @@ def generate(src, funcs, dst, header):
         with open(dst, "w") as f:
             f.write(text)
     return aliases
+
+
+def generate_math(repo, coqdir):
+    """tools/math.py wrapped_difference -> coq/Generated/MathSrc.v (used by C02 and C14)"""
+    generate(os.path.join(repo, "src", "ocean_science_utilities", "tools", "math.py"), ["masked:wrapped_difference"],
+             os.path.join(coqdir, "Generated", "MathSrc.v"), "tools/math.py")
 
 
 if __name__ == "__main__":
